@@ -55,13 +55,15 @@ fn quiet<R>(f: impl FnOnce() -> R) -> R {
 ///  nondiff   sqrt |z|
 ///  nan       NaN
 ///  const     k[i]
+///  nanrow    (systems) equation p is undefined: NaN always (mode 0), sqrt(re z_p - t) + 1 (mode 1) or acos(re z_p) + 1 (mode 2) - root-free and
+///            NaN from the second step on; every other equation is linear and decoupled, a_i (z_i - r_i): converged at once or after one step
 ///  slow      z^2 (double root at 0: the iterates halve; with tol = 1e-300 the criterion is never met within 50 steps)
 ///  sys_sin   F_i = a_i x_i + sum_j b_ij sin x_j + k_i        (real)
 ///  sys_sq    F_i = a_i z_i + sum_j b_ij z_j^2 + k_i
 ///  sys_lin   F_i = a_i (z_i - r_i) + sum_j b_ij (z_j - r_j)
 ///  perm      (systems) the equations are listed in the order perm: output row i is equation perm[i] (same root, same Newton
 ///            iterates in exact arithmetic; the Jacobian is then NOT diagonally dominant as listed: the linear solve must pivot)
-pub struct Fam { name: String, n: usize, cx: bool, s: Cmplx, r: Vec<Cmplx>, a: Vec<Cmplx>, b: Vec<Cmplx>, k: Vec<Cmplx>, perm: Vec<usize>, nest: Option<Level> }
+pub struct Fam { name: String, n: usize, cx: bool, s: Cmplx, r: Vec<Cmplx>, a: Vec<Cmplx>, b: Vec<Cmplx>, k: Vec<Cmplx>, perm: Vec<usize>, nest: Option<Level>, np: usize, nmode: i64, nt: f64 }
 impl Fam {
     fn from(case: &Value) -> Fam {
         let v = gets(case, "variant");
@@ -69,7 +71,8 @@ impl Fam {
         Fam { name: gets(case, "fam").to_string(), n: getu(case, "n"), cx: matches!(v, "cx" | "cvec" | "cvecj"),
               s: g("s").first().copied().unwrap_or(c(1.0, 0.0)), r: g("r"), a: g("a"), b: g("b"), k: g("k"),
               perm: case.get("perm").map(|p| ivec(p).iter().map(|x| *x as usize).collect()).unwrap_or_default(),
-              nest: case.get("nest").filter(|v| v.is_object()).map(Level::from) }
+              nest: case.get("nest").filter(|v| v.is_object()).map(Level::from),
+              np: case.get("p").and_then(|v| v.as_u64()).unwrap_or(0) as usize, nmode: case.get("pm").and_then(|v| v.as_i64()).unwrap_or(0), nt: case.get("t").map(hexf).unwrap_or(0.0) }
     }
     fn scalar(&self, z: Cmplx) -> Cmplx {
         match self.name.as_str() {
@@ -104,6 +107,7 @@ impl Fam {
             "nan" => c(NAN, if self.cx { NAN } else { 0.0 }),
             "const" => self.k[i],
             "slow" => z[i] * z[i],
+            "nanrow" => if i == self.np { let x = z[i].real; c(match self.nmode { 0 => NAN, 1 => (x - self.nt).sqrt() + 1.0, _ => x.acos() + 1.0 }, 0.0) } else { self.a[i] * (z[i] - self.r[i]) },
             other => { eprintln!("TOOL-ERROR unknown system family {}", other); std::process::exit(2) }
         }).collect();
         self.rows(v, 1)
@@ -119,6 +123,7 @@ impl Fam {
                 "sys_lin" => self.a[i] * d + self.b[i * n + j],
                 "rootfree" => if self.cx { c(2.0 * z[j].real * d, 0.0) } else { z[j] * (2.0 * d) },
                 "slow" => z[j] * (2.0 * d),
+                "nanrow" => if i != j { c(0.0, 0.0) } else if i == self.np { let x = z[i].real; c(match self.nmode { 0 => NAN, 1 => 0.5 / (x - self.nt).sqrt(), _ => -1.0 / (1.0 - x * x).sqrt() }, 0.0) } else { self.a[i] },
                 "nondiff" => c(d * z[j].real.signum() / (2.0 * z[j].abs().sqrt()), 0.0),
                 "nan" => c(NAN, if self.cx { NAN } else { 0.0 }),
                 _ => c(0.0, 0.0),
@@ -294,9 +299,12 @@ fn one_solve(out: &mut Out, x: &Ctx, call: i64, nw: &Nw, cfg: &Cfg, expect: &str
                 let unit = 8.0 * (cfg.tol + cfg.delta * cfg.delta + EPS * (rn + 1.0));
                 du = units(dist, unit); duppm = units(dist, unit * 1.0e-6);
             }
-            e["ok"] = json!(ok); e["panic"] = json!(false); e["r"] = pbits(&v, cx); e["du"] = json!(du); e["duppm"] = json!(duppm);
+            let fin = v.iter().all(|z| z.real.is_finite() && z.imag.is_finite());
+            e["ok"] = json!(ok); e["panic"] = json!(false); e["r"] = pbits(&v, cx); e["du"] = json!(du); e["duppm"] = json!(duppm); e["fin"] = json!(fin);
+            // the class of known_findings.json: success reported with non-finite components because a NaN residual in a position >= 1 is ignored
+            if ok && !fin && x.fam.name == "nanrow" && x.fam.np >= 1 { e["kf"] = json!("nan_residual_ignored_tail"); }
         }
-        Err(_) => { e["ok"] = json!(false); e["panic"] = json!(true); e["r"] = json!([]); e["du"] = json!(0); e["duppm"] = json!(0); }
+        Err(_) => { e["ok"] = json!(false); e["panic"] = json!(true); e["r"] = json!([]); e["du"] = json!(0); e["duppm"] = json!(0); e["fin"] = json!(false); }
     }
     out.ev(e);
 }
@@ -690,6 +698,21 @@ pub fn gen(tier: &str, seed: u64, out: &mut Out) {
         k["expect2"] = json!(if limit2 == 0 { "err" } else if slow { "any" } else if limit2 >= NEED || at_root { "ok" } else { "any" });
         push(out, k);
     } }
+    // (b2) an undefined equation while the others have converged: dimension 2..5, every position p, every system variant; NaN always / from
+    //      the second step on; the other components of the guess at their roots (residual exactly 0) or one linear step away.  Must fail.
+    let dims: &[usize] = if quick { &[2, 3, 5] } else { &[2, 3, 4, 5] };
+    for rep in 0..(if quick { 1 } else { 4 }) { for v in ["vec", "vecj", "cvec", "cvecj"] { for n in dims { for p in 0..*n {
+        let n = *n; let cx = matches!(v, "cvec" | "cvecj");
+        let pm = (p + n + rep) % 3; let tt = unif(&mut rng, -1.0, 1.0);
+        let root: Vec<Cmplx> = (0..n).map(|_| c(unif(&mut rng, -2.0, 2.0), if cx { unif(&mut rng, -1.0, 1.0) } else { 0.0 })).collect();
+        let at_root = rng.gen_bool(0.5);
+        let guess: Vec<Cmplx> = (0..n).map(|i| if i == p { c(match pm { 1 => tt + unif(&mut rng, 0.5, 2.0), 2 => unif(&mut rng, -0.9, 0.9), _ => unif(&mut rng, -2.0, 2.0) }, 0.0) }
+                                             else if at_root { root[i] } else { root[i] + unit_dir(&mut rng, cx) * unif(&mut rng, 0.1, 1.0) }).collect();
+        let a: Vec<Cmplx> = (0..n).map(|_| unit_dir(&mut rng, cx) * unif(&mut rng, 1.0, 3.0)).collect();
+        let limit = if rng.gen_bool(0.2) { 1 } else { rng.gen_range(2..=8) };
+        push(out, json!({"fam": "nanrow", "variant": v, "n": n, "p": p, "pm": pm, "t": jhex(tt), "a": jcvec(&a), "r": jcvec(&root), "tol": jhex(pick_tol(&mut rng).max(1.0e-10)),
+                         "delta": jhex(pick_delta(&mut rng)), "limit": limit, "guess": jcvec(&guess), "basin": false, "expect": "err"}));
+    } } } }
     // (b) termination / failure half: root-free, non-differentiable, NaN-producing, constant functions (failure is
     //     provable: the stopping criterion can never be met), plus a double root and a divergent iteration (protocol only)
     let reps = if quick { 24 } else { 240 };
